@@ -65,6 +65,22 @@ CHECKS = {
          "All criteria trees of depth <= 2 over binary AND / OR, unary NOT and 11 leaf conditions (thorough: also depth 3 over 3 leaves), and every adversarial string / number operand in every condition that takes it inside four tree contexts: the text produced by ext.CompileToSql is tokenised and parsed with standard SQL precedence; the tree read back must equal the input modulo flattening of AND / OR, bound names must appear as their run-time values and unbound names as back-quoted columns, each string operand must be exactly one quoted literal that decodes to the operand, numbers must be plain numeric literals that read back as the same double, booleans 1 / 0, instants from_unixtime(n).",
          "Trusted: mc/ref/sql.go (tokenizer + precedence reader). Assumes MySQL-style backslash escapes inside double-quoted literals.",
          "DESIGN.md §4 C20"),
+
+ "C10": ("enum", "model_checking",
+         "bounded-exhaustive enumeration of sugared terms (every node kind in every operand and callee position) parsed and desugared by the real code, compared with an independently computed core form; sugared vs explicit evaluation",
+         "Structural half: all terms of depth <= 2 over 18 constructors (infix, prefix, ?:, method calls, parentheses, calls, calls of arbitrary callee expressions, subscript, member, literals) are rendered, parsed and desugared: the result must equal the core form computed on the harness's own term (op(x,y), op(x), if(c,a,b), f(o,args), e), contain no sugar node, be a fixpoint of Desugar (spans included), carry the operator columns in source order, and leave the parsed tree (deep snapshot) untouched. Semantic half: every well-typed program of the small-alphabet and effects corpora is evaluated from sugared source and from the explicit core tree built with the ast constructors through Expr.CompileExpr — same outcome, value and host-call trace — plus paired source texts.",
+         "Trusted: the term renderer and coreString (mc/props/c10.go). Known finding: Desugar is not idempotent on (o.m)(x).",
+         "DESIGN.md §4 C10"),
+ "C11": ("enum", "model_checking",
+         "every program of the C03 corpus compiled through the read-only bytecode export hook and checked by an independent abstract interpreter (typed stack-depth verifier) over the instruction set",
+         "The code bytes, constant pool and thunk bodies (recursively) of every accepted program of the C03 corpus — incl. the size families, branches longer than 255 / 65535 bytes, 255 / 256 arguments, dynamic calls — must decode completely into known instructions; constant / size / argc operands must be in range and of the right kind (value, name, type of the right constructor, function whose laziness matches the call opcode and whose arity matches argc, thunk); every jump must go strictly forward to an instruction boundary inside the code; the typed abstract stack must agree on every path, never underflow, fit each opcode's operand kinds and hold exactly one value of the expected type at the final return. Forward-only jumps over finite code imply at most one step per emitted instruction.",
+         "Trusted: mc/ref/bc.go (operand layout and stack effect per mnemonic, written from vm/opcode.go). Opcode numbers are resolved by name through the hook.",
+         "DESIGN.md §4 C11"),
+ "C12": ("enum", "model_checking",
+         "bounded-exhaustive enumeration of token sequences, corpus edits, nesting families and host-value shapes through every public entry point under a deterministic step budget",
+         "All token sequences of <= 4 (thorough 5) tokens over a 26-token alphabet, every single (thorough: double) token insertion / deletion / duplication / replacement of a 24-program corpus, 20 nesting families to depth 64 (thorough 200) and 66 host values (nil, typed nil, pointer to nil pointer, nil interfaces inside containers, cyclic pointers, recursive types, unsupported kinds) go through Eval, Compile + Callable and Debug inside isolated worker processes: a panic that escapes the API or a dead worker is a violation, and the work counted by the build-tag Step hooks (lexer tokens, parser expr calls, checker nodes, unify calls, conversion calls) must stay below 200·(n+2)²+2000 for an input of n runes — a deterministic abort, never a wall-clock oracle.",
+         "Polynomial is checked as quadratic in counted steps; evaluation cost is covered by C11 (forward-only bytecode). Stack exhaustion beyond nesting depth 200 is not explored.",
+         "DESIGN.md §4 C12"),
  "C17": ("enum", "model_checking",
          "bounded-exhaustive enumeration of type pairs executed on the real Unify/Equals, judged against an independent matcher and algebraic laws",
          "Every ordered pair of types up to depth 1 (width 2) over the full constructor alphabet, every same-constructor pair of a reduced depth-2 set, and every pair of argument 2-tuples (tree-shaped and pointer-shared) is run through the real types.Equals / types.Unify in both orders; Equals must coincide with structural identity by field name, and a successful Unify must yield an acyclic substitution that makes both sides equal (relaxed only at the documented ⊥/⊤ positions) and must succeed exactly when the reference one-way matcher finds an instantiation for pattern-vs-ground pairs. Exhaustive within that bound; nothing is sampled.",
